@@ -100,7 +100,7 @@ def _as_int(v):
     return int(v)
 
 
-def h_stack(env, size=(4, 5), n=2, input_order="zyx"):
+def h_stack(env, size=(4, 5), n=2, input_order="zyx", twice=False):
     """dose_filter: frequency array, dose pairing, output assembly (calls to dose_filter_single_image are recorded)"""
     ts = env.module("tiltstack")
     Hc, Wc = int(size[0]), int(size[1])
@@ -114,6 +114,12 @@ def h_stack(env, size=(4, 5), n=2, input_order="zyx"):
     else:
         stack = np.random.default_rng(9).standard_normal(shape)
         dl = np.array(doses)
+    if twice:
+        # an earlier call in the same process on a stack of the SAME image size but another pixel size must leave nothing behind
+        px0 = env.real("pixel_before", 0.5, 10)
+        env.assume(env.not_(env.eq(px0, px)))
+        with np.errstate(divide="ignore"):
+            ts.dose_filter(stack, px0, dl, input_order=input_order, output_order=input_order)
     calls = []
     orig = ts.dose_filter_single_image
 
@@ -191,4 +197,5 @@ def jobs(tier, seed):
     sizes = [[4, 5], [5, 4]] if tier == "quick" else [[4, 5], [5, 4], [6, 6], [8, 7], [7, 8]]
     for k, sz in enumerate(sizes):
         j.append(("h_stack", {"size": sz, "n": 2 + (k % 2), "input_order": ["zyx", "xyz"][k % 2]}))
+    j.append(("h_stack", {"size": [5, 4], "n": 2, "input_order": "zyx", "twice": True}))
     return j
